@@ -278,7 +278,7 @@ def decode (abort : Bool) : Ty → Path → Option Int → St → R Val
       -- selector selects no member: `ValueConstraintViolatedError` in both modes (the layout is unknowable)
       (match sel with
        | some sv => .error (.value path name sv, s)
-       | none => crash "TypeError" "process_tpmu: int(None) while reporting the selection error" s)
+       | none => .error (.valueNone path name, s))
     | some an => decodeArm abort arms name an path s
   | .bad r, _, _, s => crash "ModelError" ("untranslatable type " ++ r) s
 termination_by structural t => t
